@@ -55,6 +55,7 @@ class Ctx:
         self.steps = []          # human-readable list of what ran
         self.obligations = []    # apalache
         self.extra = {}
+        self.distinct = set()    # hashes of the distinct cases (events / runs) validated against the specification
         self.known = load_known_findings()
         self.known_hits = []
         self.bins = {}
@@ -311,7 +312,36 @@ class Ctx:
             raise Violation(self.prop, "%s: event %d of %s is not a behaviour of %s" % (
                 what or module, idx, os.path.basename(f), module), replay)
         self.events += nev
+        for (f, acc, _i, _e, _info) in res:
+            if acc:
+                self.count_distinct(f, per_run)
         return nev
+
+    def count_distinct(self, f, per_run):
+        """Measured distinctness: hash every event (per-call traces) or every run (state-machine traces) with the
+        sequence / run numbers removed; an `End` sentinel is not a case."""
+        import hashlib
+        strip = re.compile(rb'"(seq|run)":\d+,?')
+        try:
+            with open(f, "rb") as fh:
+                if not per_run:
+                    for l in fh:
+                        if b'"ev":"End"' in l:
+                            continue
+                        self.distinct.add(hashlib.blake2b(strip.sub(b"", l), digest_size=8).digest())
+                else:
+                    h = None
+                    for l in fh:
+                        if b'"run_start":true' in l:
+                            if h is not None:
+                                self.distinct.add(h.digest())
+                            h = hashlib.blake2b(digest_size=8)
+                        if h is not None and b'"ev":"End"' not in l:
+                            h.update(strip.sub(b"", l))
+                    if h is not None:
+                        self.distinct.add(h.digest())
+        except OSError:
+            pass
 
     def match_known(self, ev):
         s = json.dumps(ev, sort_keys=True)
@@ -363,7 +393,8 @@ class Ctx:
             "events_validated": self.events,
             "evaluations": max(self.evaluations, self.events),
             "distinct_nontrivial": distinct,
-            "rule": rule,
+            "rule": rule + " (distinct_nontrivial = number of distinct events / runs by content hash, sequence numbers "
+                            "removed; every one is evaluated against the specification, none is skipped as trivial)",
             "samples": self.samples or [{"note": "no sample"}],
             "steps": self.steps,
             "trusted_base": list(trusted),
@@ -494,6 +525,8 @@ def run_check(prop, tier, plan, level, rule, assumptions=(), trusted=()):
     ctx = Ctx(prop, tier)
     try:
         distinct = plan(ctx)
+        if ctx.distinct:
+            distinct = len(ctx.distinct) + ctx.extra.get("distinct_points_in_exhaustive_sweeps", 0)
         for k in ctx.known_hits:
             log("KNOWN-FINDING: property=%s %s" % (prop, k["line"]))
         ctx.write_evidence(level, rule, distinct, 0, assumptions, trusted)
